@@ -36,7 +36,7 @@ def check(run):
                 'the real `jug invalidate` command and the interactive-shell invalidate function; removed set compared with the Lean closure model (over the dependencies the code reports) and with the property (every '
                 'task that really reads an invalidated result is gone, nothing outside the reported closure is touched); then a real execute must re-run exactly the removed tasks and restore the sequential values; '
                 'targets also include names of (prefixes of) module components and dotted names: the tasks the real matcher selects are compared with the Lean matcher (Model/Target.lean) and with bounds stated without either; '
-                'non-trivial = the target has dependents and non-dependents with stored results; distinct by (program, target, state, backend)')
+                'the invalidation made by one `jug invalidate` process and looked at by the next (`jug check`, `jug execute`) on the file store, the packed file store and `dict_store:<file>`; non-trivial = the target has dependents and non-dependents with stored results; distinct by (program, target, state, backend)')
     run.assumptions = ['dependencies: lower bound = results a task really reads (cache-free sequential run), upper bound = what Task.dependencies() reports (jug may invalidate conservatively, e.g. a slice of a mapped sequence with all its blocks)',
                        'the shell work list is modelled as coded (shellLoop: reverse-edge table, pop from the end, seen set) and proved totally correct (shell_total); hashes are modelled as task indices (equal-hash duplicates of a task are one task)']
     run.trusted = ['Lean 4.33.0 kernel', 'axioms propext, Quot.sound', 'harness/jugverif/graphcheck.py']
@@ -177,12 +177,88 @@ def check(run):
         # a key that exists packed and loose (stale worker): invalidate must remove both copies
         from jugverif import storecheck
         storecheck.stale_client_family(run, n=(4 if quick else 20))
+        next_process_family(run, quick)
         if drv is not None and run.corr_disagreements == 0:
             run.obligation('correspondence: %d real invalidations (command line and shell) removed exactly the set of the model' % run.corr_programs, True)
     finally:
         core.rm_rf(scratch)
         if drv is not None:
             drv.close()
+
+
+NEXT_JUGFILE = """from jug import TaskGenerator
+import os
+HERE = os.path.dirname(os.path.abspath(__file__))
+def _note(n):
+    open(os.path.join(HERE, 'calls.log'), 'a').write(n + '\\n')
+@TaskGenerator
+def src(x):
+    _note('src%d' % x); return x + 1
+@TaskGenerator
+def mid(x):
+    _note('mid%d' % x); return x * 2
+@TaskGenerator
+def join(a, b):
+    _note('join'); return [a, b]
+@TaskGenerator
+def side(x):
+    _note('side'); return -x
+s1 = src(1)
+s2 = src(2)
+m1 = mid(s1)
+m2 = mid(s2)
+j = join(m1, m2)
+o = side(7)
+"""
+# target -> the invocations a following execute must make again (the target's tasks and all that is built on them), nothing else
+NEXT_EXPECT = {'mid': ['join', 'mid2', 'mid3'], 'join': ['join'], 'side': ['side'], 'src': ['join', 'mid2', 'mid3', 'src1', 'src2']}
+
+
+def next_process_family(run, quick):
+    """the invalidation is made by one process (`jug invalidate`) and looked at by the next one (`jug check`, `jug execute`): on every backend that outlives a process -
+    the file store, the file store with a pack, and the in-memory store with a backing file - the removed results stay removed and exactly they are computed again"""
+    from jugverif.loadercheck import jug_cli
+    fast = ['--nr-wait-cycles', '1', '--wait-cycle-time', '0']
+    for backend in ('file', 'dictfile', 'filepack'):
+        for target in (['mid'] if quick else sorted(NEXT_EXPECT)):
+            d = core.scratch_dir('jugverif-c09next-')
+            try:
+                open(os.path.join(d, 'jugfile.py'), 'w').write(NEXT_JUGFILE)
+                jd = ['--will-cite', '--jugdir', 'dict_store:project.store' if backend == 'dictfile' else 'store.jugdata']
+                rp = {'kind': 'invalidate-next-process', 'backend': backend, 'target': target, 'jugfile': NEXT_JUGFILE}
+                run.case(('next-process', backend, target), nontrivial=True)
+                run.count('next_process_invalidations')
+
+                def calls():
+                    try:
+                        return open(os.path.join(d, 'calls.log')).read().split()
+                    except IOError:
+                        return []
+                ex = jug_cli(['execute'] + jd + fast + ['jugfile.py'], d)
+                if backend == 'filepack':
+                    jug_cli(['pack'] + jd + ['jugfile.py'], d)
+                n0 = len(calls())
+                if ex.returncode != 0 or n0 != 6:
+                    run.fail('next-process-execute', '`jug execute` on the %s backend exits %s after %d of 6 invocations: %s' % (backend, ex.returncode, n0, ex.stdout[-300:]), rp)
+                    continue
+                inv = jug_cli(['invalidate'] + jd + ['--target', target, 'jugfile.py'], d)
+                chk = jug_cli(['check'] + jd + ['jugfile.py'], d)
+                ex2 = jug_cli(['execute'] + jd + fast + ['jugfile.py'], d)
+                again = sorted(calls()[n0:])
+                chk2 = jug_cli(['check'] + jd + ['jugfile.py'], d)
+                if inv.returncode != 0:
+                    run.fail('invalidate-fails', '`jug invalidate --target %s` on the %s backend exits %s: %s' % (target, backend, inv.returncode, inv.stdout[-300:]), rp)
+                elif chk.returncode == 0 or again != NEXT_EXPECT[target]:
+                    missing = [x for x in NEXT_EXPECT[target] if x not in again]
+                    extra = [x for x in again if x not in NEXT_EXPECT[target]]
+                    run.fail('stale-result' if missing or chk.returncode == 0 else 'unrelated-removed',
+                             '%s backend: after `jug invalidate --target %s` (its own process, exit 0) the next process: `jug check` exits %s and `jug execute` invokes %s again; '
+                             'the invalidated tasks and what is built on them are %s%s%s' % (backend, target, chk.returncode, again, NEXT_EXPECT[target],
+                                                                                           ' - still served from the store: %s' % missing if missing else '', ' - removed although unrelated: %s' % extra if extra else ''), rp)
+                elif ex2.returncode != 0 or chk2.returncode != 0:
+                    run.fail('next-process-execute', '%s backend: execute after invalidate exits %s, check afterwards %s' % (backend, ex2.returncode, chk2.returncode), rp)
+            finally:
+                core.rm_rf(d)
 
 
 def replay(path):
